@@ -36,6 +36,7 @@ CHECKED = {
     '_insert_synset_definitions': 'spec_insert_synset_definitions',
     '_insert_synset_relations': 'spec_insert_synset_relations',
     '_insert_examples': 'spec_insert_examples',
+    '_insert_sense_relations': 'spec_insert_sense_relations',
     '_insert_syntactic_behaviours': 'spec_insert_syntactic_behaviours',
     '_update_lookup_tables': 'spec_update_lookup_tables',
     '_insert_lexicon': 'spec_insert_lexicon',
